@@ -1,6 +1,6 @@
 prop("C19", pkg="c19",
      rule="rapid draws a message schema (as for C12 without the method-carrying types: untagged (numbered by the running count of exported fields) or fully tagged messages, a quarter of them with 1-2 unexported Go fields declared before / between / after the exported ones; maps restricted to map<string,V>, field numbers incl. 255/256/257/300/317-319/2047/2048/65535/65536/70000/2^29-1) and, "
-          "per schema, 2-5 (thorough: 8-20) (rewriter, input) pairs. Rewriter: ParseRewriteTemplate(TypeOf(type), JSON) over a random subset of fields (non-zero, zero and null scalars; "
+          "per schema, 1-3 (thorough: 4-10) (rewriter, input) pairs, 60 % of which are extended to a STATEFUL HISTORY (see below). Rewriter: ParseRewriteTemplate(TypeOf(type), JSON) over a random subset of fields (non-zero, zero and null scalars; "
           "nested partial templates for singular messages to depth 3; arrays of non-zero elements / complete objects for repeated fields; objects with non-empty keys "
           "and non-zero values for maps), the same with RewriterRules carrying BitOr[T] on singular integer fields (nested rules for sub-messages), or a hand-assembled "
           "MessageRewriter of FieldNumber(n).Bool/Int/.../Bytes/Value(v), MultiRewriter(...) and BitOrRewriter(...). Input: the reference's encoding of a random value, "
@@ -9,14 +9,20 @@ prop("C19", pkg="c19",
           "with templated fields replaced (BitOr: or-ed); output parses with protowire, the reference decodes it to expected (floats by bits, nil==empty), untemplated "
           "fields incl. unknown ones appear in the same order with identical values (byte-identical when every varint of the input is minimal; recursively inside a "
           "singly-present templated sub-message), input and template bytes unchanged, same result when appending to a non-empty out with spare capacity and the prefix "
-          "kept; panics are failures. Non-trivial = template touches >= 1 field present in the input and leaves >= 1 present field untouched; distinct = FNV-64 of the "
-          "case JSON. While listed as known the generator avoids: rule sets whose highest number M has M>=256 and M%64<61, BitOr on zigzag fields, several "
+          "kept; panics are failures. Stateful histories: 2-6 Rewrite calls in one process on the pair's rewriter and, in a third of the histories, a second rewriter "
+          "built once (another template/rule set for the same message type, or a rewriter of a different generated message type whose small field numbers overlap); each "
+          "call is (a) valid - the pair's valid input, possibly repeated and with a fresh out prefix - and then judged by the full oracle above EXACTLY as if it were the only "
+          "call, or (b) 'truncations' - Rewrite on every prefix of the valid input that ends inside a field (at most 48, evenly spread), or (c) hostile - an embedded message "
+          "cut short inside a well-formed outer message, a templated field given another wire type, one malformed prefix, or random bytes; for (b) and (c) only 'returns without "
+          "panic' is required (the statement speaks of valid messages only). Histories end with a valid call, so that state left behind by failing calls (pools, caches) "
+          "shows up as a wrong result of a later valid call. Non-trivial = template touches >= 1 field present in the input and leaves >= 1 present field untouched; distinct = FNV-64 of the "
+          "case JSON (histories: the whole history; a history additionally counts as non-trivial when a valid call follows a failing one). While listed as known the generator avoids: rule sets whose highest number M has M>=256 and M%64<61, BitOr on zigzag fields, several "
           "occurrences of a field that carries a nested template or BitOr (counts under excluded_known).",
      quick=dict(shards=8, scale=1, timeout=600),
      thorough=dict(shards=16, scale=2, timeout=3000),
-     technique="rapid property-based testing against a value-level model, with google.golang.org/protobuf v1.26.0 (dynamicpb) as decoder of inputs and outputs and "
+     technique="rapid property-based testing against a value-level model, single calls and stateful histories of Rewrite calls (valid, truncated and hostile inputs interleaved on one or two rewriters kept alive in one process), with google.golang.org/protobuf v1.26.0 (dynamicpb) as decoder of inputs and outputs and "
                "protowire for input surgery and the carry-over check",
-     level_text="Exploration: about 0.16 M (type, rewriter, input) triples per quick run are checked against the value model; a rewriter output that does not decode to "
+     level_text="Exploration: about 0.2 M Rewrite calls per quick run (single calls and calls inside 2-6 step histories that interleave failing inputs) are checked against the value model; a rewriter output that does not decode to "
                 "'original with exactly the templated fields replaced', loses/reorders/changes an untemplated field, touches its input, template or out-prefix, or "
                 "panics is reported with a replayable case. The 3 genuine defects this check found are repaired in /repo (status fixed in known_findings.json): their "
                 "witnesses run as regression cases and the shapes they had excluded (rules at numbers >= 256, BitOr on sint fields, ruled fields present repeatedly) are generated again.",
